@@ -11,6 +11,7 @@ pub fn dispatch(f: &[String]) -> String {
         "type" => types(f),
         "call" => call(&f[1], &f[2], &f[3]),
         "progk" => progk(&f[1], &f[2], &f[3]),
+        "value" => value_mode(f),
         "repl" => repl(&f[1], &f[2], &f[3..]),
         "reexec" => reexec(&f[1], &f[2], &f[3]),
         other => format!("(bad-mode {other})"),
@@ -467,4 +468,55 @@ fn progk(flags: &str, k: &str, src: &str) -> String {
     }
     outs.sort();
     format!("(progk {} {})", outs.len(), outs.join(" "))
+}
+
+
+/// `value rt <program>`: evaluate the program to a value v, print it with `{:?}` (what the REPL prints),
+/// read the text back with Variable::from_str and as a program; `value parse <text>`: Variable::from_str
+fn value_mode(f: &[String]) -> String {
+    use std::str::FromStr;
+    let r = panic::catch_unwind(AssertUnwindSafe(|| match f[1].as_str() {
+        "rt" => {
+            let interp = Interpreter::with_stdlib();
+            let v = match Code::parse(&interp, &f[2]).map(|c| c.exec()) {
+                Ok(Ok(v)) => v,
+                Ok(Err(e)) => return format!("(setup-error {})", canon::exec_error(&e)),
+                Err(e) => return format!("(setup-rejected {})", canon::error(&e)),
+            };
+            let text = format!("{v:?}");
+            let back = match panic::catch_unwind(AssertUnwindSafe(|| Variable::from_str(&text))) {
+                Err(_) => format!("(panic {})", take_panic()),
+                Ok(Err(e)) => format!("(unparsable {})", canon::error(&e)),
+                Ok(Ok(w)) => format!(
+                    "(parsed {} eq={} sametype={})",
+                    canon::value(&w),
+                    (w == v && v == w) as u8,
+                    (canon::ty(&w.as_type()) == canon::ty(&v.as_type())) as u8
+                ),
+            };
+            let prog = match panic::catch_unwind(AssertUnwindSafe(|| {
+                Code::parse(&Interpreter::without_stdlib(), &text).map(|c| c.exec())
+            })) {
+                Err(_) => format!("(panic {})", take_panic()),
+                Ok(Err(e)) => format!("(rejected {})", canon::error(&e)),
+                Ok(Ok(Err(e))) => format!("(error {})", canon::exec_error(&e)),
+                Ok(Ok(Ok(w))) => format!(
+                    "(ran {} eq={} sametype={})",
+                    canon::value(&w),
+                    (w == v && v == w) as u8,
+                    (canon::ty(&w.as_type()) == canon::ty(&v.as_type())) as u8
+                ),
+            };
+            format!("(rt {} {} {} {})", canon::value(&v), canon::string(&text), back, prog)
+        }
+        "parse" => match Variable::from_str(&f[2]) {
+            Ok(v) => format!("(parsed {})", canon::value(&v)),
+            Err(e) => format!("(unparsable {})", canon::error(&e)),
+        },
+        other => format!("(bad-value-op {other})"),
+    }));
+    match r {
+        Ok(s) => s,
+        Err(_) => format!("(panic {})", take_panic()),
+    }
 }
